@@ -67,7 +67,11 @@ enum FailKind { F_FAIL, F_FAIL_C, F_CHECK, F_THROW, F_LONGS, F_N };
 static const char* FAIL_NAME[] = { "FAIL", "FAIL_TEXT_C", "CHECK", "throw", "LONGS_EQUAL" };
 
 struct OpRec { uint8_t op, slot, kind, pad; uint16_t size, arg; };
-struct TestScript { uint8_t nops[3]; uint8_t plugfail; OpRec ops[3][MAX_OPS]; };   // plugfail: another plugin records a failure in its pre (1) / post (2) action
+// phases 0..2 belong to the test (inside the leak plugin's window). Phases 3 / 4 are executed by a plugin at the very head of
+// the chain: BEFORE the leak plugin's pre action / AFTER its post action of this test, i.e. between tests. Blocks allocated
+// there belong to no test: they must never be charged to one (only the final report knows them).
+enum { PH_BEFORE = 3, PH_AFTER = 4, N_PH = 5, FIRST_OUTSIDE_SLOT = 60 };
+struct TestScript { uint8_t nops[N_PH]; uint8_t plugfail; OpRec ops[N_PH][MAX_OPS]; };   // plugfail: another plugin records a failure in its pre (1) / post (2) action
 struct Program {
     int ntests, repeat, nslots, profile; bool threadsafe;
     int detmode; bool local_outer;      // detmode see above; local_outer (mode 2): the own-detector plugin is the head of the chain (its post action runs last)
@@ -80,8 +84,9 @@ static std::string describe_program(const Program& P) {
     std::vector<std::string> tests;
     for (int t = 0; t < P.ntests; t++) {
         std::string s;
-        for (int ph = 0; ph < 3; ph++) {
-            s += ph == 0 ? "S:" : ph == 1 ? " | B:" : " | T:";
+        for (int ph = 0; ph < N_PH; ph++) {
+            if (ph >= 3 && !P.t[t].nops[ph]) continue;
+            s += ph == 0 ? "S:" : ph == 1 ? " | B:" : ph == 2 ? " | T:" : ph == PH_BEFORE ? " | between tests, before this one:" : " | between tests, after this one:";
             for (int i = 0; i < P.t[t].nops[ph]; i++) {
                 const OpRec& o = P.t[t].ops[ph][i];
                 char b[96];
@@ -113,7 +118,7 @@ static uint64_t program_hash(const Program& P) {
     if (cfg) h = vf::fnv(&cfg, sizeof cfg, h);
     for (int t = 0; t < P.ntests; t++) {
         h = vf::fnv(&P.t[t].plugfail, 1, h);
-        for (int ph = 0; ph < 3; ph++) { h = vf::fnv(&P.t[t].nops[ph], 1, h); h = vf::fnv(P.t[t].ops[ph], sizeof(OpRec) * P.t[t].nops[ph], h); }
+        for (int ph = 0; ph < N_PH; ph++) { if (ph >= 3 && !P.t[t].nops[ph]) continue; h = vf::fnv(&P.t[t].nops[ph], 1, h); h = vf::fnv(P.t[t].ops[ph], sizeof(OpRec) * P.t[t].nops[ph], h); }
     }
     return h;
 }
@@ -124,9 +129,11 @@ struct Block {
     int owner_run, freed_run; unsigned char fill; int fillmode;   // 0 pattern byte, 1 zeros, 2 letters + NUL
     bool adopted;                                                 // result of a realloc of a block that an EARLIER test allocated
     int det;                                                      // 0: tracked by the global detector, 1: by the plugin's own detector
+    bool freed_outside;                                           // released between tests
+    int outside;                                                  // 0: allocated by a test; PH_BEFORE / PH_AFTER: allocated between tests (while run owner_run was current)
 };
 // per-plugin inputs are indexed by detector (0 global, 1 own); mark = number of failures recorded when the inner of two leak plugins had finished its post action
-struct RunRec { int test, own_fails, plugin_fails, fail_kind, freed_earlier[2], allocs, frees, realloc_failed, mark; bool ignore[2], expect_set[2], ended; unsigned long expect[2]; unsigned phases; };
+struct RunRec { int test, own_fails, plugin_fails, fail_kind, freed_earlier[2], allocs, frees, realloc_failed, mark, outside_allocs, outside_frees; bool ignore[2], expect_set[2], ended; unsigned long expect[2]; unsigned phases; };
 struct FailRec { int run; char* name; char* nameonly; char* file; size_t line; char* msg; };
 
 static Block B[MAX_BLOCKS]; static int nB;
@@ -135,6 +142,7 @@ static RunRec R[MAX_RUNS]; static int nR, cur_run;
 static FailRec FR[MAX_FAILS]; static int nFR;
 static uint64_t OPC[O_N], KINDC[K_N];
 static uint64_t g_skipped_ops, g_alloc_null, g_ledger_full, g_misattributed_phase;
+static int g_phase;                                               // phase being executed (0..4)
 static size_t RES_fail[4], RES_run[4];
 static MemoryLeakDetector* DET;          // global detector
 static MemoryLeakDetector* LDET;         // the plugin's own detector (modes 1, 2), constructed per program in static storage
@@ -221,8 +229,9 @@ static void op_alloc(RunRec& rr, int test, int s, int kind, unsigned size, int d
     unsigned sz = size; int fm = 0;
     void* p = raw_alloc(det, kind, sz, b.file, b.line, b.fill, fm);
     if (!p) { g_alloc_null++; return; }
-    b.p = p; b.allocnum = num; b.size = sz; b.fillmode = fm; b.owner_run = cur_run; b.freed_run = -1; b.adopted = false; b.det = det;
-    SLOT[s] = nB++; rr.allocs++; KINDC[kind]++;
+    b.p = p; b.allocnum = num; b.size = sz; b.fillmode = fm; b.owner_run = cur_run; b.freed_run = -1; b.adopted = false; b.det = det; b.outside = g_phase >= 3 ? g_phase : 0; b.freed_outside = false;
+    SLOT[s] = nB++; KINDC[kind]++;
+    if (b.outside) rr.outside_allocs++; else rr.allocs++;
 }
 
 static void op_free(RunRec& rr, int s) {
@@ -230,7 +239,9 @@ static void op_free(RunRec& rr, int s) {
     if (bi < 0) { g_skipped_ops++; return; }
     Block& b = B[bi];
     raw_free(b);
-    b.freed_run = cur_run; SLOT[s] = -1; rr.frees++;
+    SLOT[s] = -1;
+    if (g_phase >= 3) { b.freed_run = g_phase == PH_AFTER ? cur_run + 1 : cur_run; b.freed_outside = true; rr.outside_frees++; return; }   // after the window of run r: the block was still outstanding at r's end
+    b.freed_run = cur_run; rr.frees++;
     if (b.owner_run < cur_run) rr.freed_earlier[b.det]++;
 }
 
@@ -250,7 +261,7 @@ static void op_realloc(RunRec& rr, int test, int s, unsigned size, bool fail, in
     PlatformSpecificRealloc = REAL_REALLOC;
     if (!q) { rr.realloc_failed++; return; }                       // the old block is still valid and still outstanding
     memset(q, b.fill, size);
-    b.p = q; b.allocnum = num; b.size = size; b.fillmode = 0; b.owner_run = cur_run; b.freed_run = -1; b.adopted = o.owner_run < cur_run; b.det = o.det;
+    b.p = q; b.allocnum = num; b.size = size; b.fillmode = 0; b.owner_run = cur_run; b.freed_run = -1; b.adopted = o.owner_run < cur_run; b.det = o.det; b.outside = 0; b.freed_outside = false;
     o.freed_run = cur_run; rr.frees++;
     if (o.owner_run < cur_run) rr.freed_earlier[o.det]++;
     SLOT[s] = nB++; rr.allocs++; KINDC[K_REALLOC]++;
@@ -273,6 +284,7 @@ static void run_phase(int test, int phase) {
     if (rr.test != test) g_misattributed_phase++;
     PlatformSpecificRealloc = REAL_REALLOC;
     rr.phases |= 1u << phase;
+    g_phase = phase;
     const TestScript& ts = G.t[test];
     for (int i = 0; i < ts.nops[phase]; i++) {
         const OpRec& o = ts.ops[phase][i];
@@ -334,6 +346,16 @@ public:
     void postTestAction(UtestShell& t, TestResult& r) override { act(t, r, 2); }
 };
 static FailPlugin* FAILPLUGIN;
+
+// head of the whole chain: its pre action runs before every leak plugin opens its window, its post action after every leak
+// plugin has closed it and given its verdict — the code between two tests
+class OuterPlugin : public TestPlugin {
+public:
+    OuterPlugin() : TestPlugin("C07OuterPlugin") {}
+    void preTestAction(UtestShell&, TestResult&) override { if (cur_run >= 0 && R[cur_run].test >= 0) run_phase(R[cur_run].test, PH_BEFORE); }
+    void postTestAction(UtestShell&, TestResult&) override { if (cur_run >= 0 && R[cur_run].test >= 0) run_phase(R[cur_run].test, PH_AFTER); }
+};
+static OuterPlugin* OUTER;
 
 // sits between two leak plugins: when its post action runs, exactly the inner leak plugin has given its verdict
 class MarkerPlugin : public TestPlugin {
@@ -504,6 +526,7 @@ struct Judge {
             if (!E.count(bi)) {
                 std::string d = where + ": lists block #" + std::to_string(bi) + " (alloc num " + std::to_string(e.num) + ", size " + std::to_string(b.size) + ") allocated in run " + std::to_string(b.owner_run) + ", released in run " + std::to_string(b.freed_run);
                 if (b.freed_run >= 0 && b.freed_run <= at_run) c.violation(pfx + "lists-released-block", d);
+                else if (b.outside && at_run < nR) c.violation(pfx + "lists-block-allocated-between-tests", d);
                 else if (b.owner_run < at_run) c.violation(pfx + "lists-earlier-tests-block", d);
                 else c.violation(pfx + "lists-later-tests-block", d);
                 continue;
@@ -563,12 +586,13 @@ static void run_and_judge(vf::Ctx& c) {
         if (mode == 2) PL[1] = ::new ((void*) PLUGIN2_STORAGE) MemoryLeakWarningPlugin("C07LeakPluginOwnDetector", LDET);
         if (G.threadsafe) MemoryLeakWarningPlugin::turnOnThreadSafeNewDeleteOverloads();
         TestRegistry reg;
-        bool anyplug = false;
-        for (int i = G.ntests - 1; i >= 0; i--) { reg.addTest(SH[i]); anyplug |= G.t[i].plugfail != 0; }
+        bool anyplug = false, anyoutside = false;
+        for (int i = G.ntests - 1; i >= 0; i--) { reg.addTest(SH[i]); anyplug |= G.t[i].plugfail != 0; anyoutside |= G.t[i].nops[PH_BEFORE] || G.t[i].nops[PH_AFTER]; }
         if (anyplug) reg.installPlugin(FAILPLUGIN);
         // head of the chain: first pre action, last post action, as in RunAllTests
         if (mode == 2) { int outer = G.local_outer ? 1 : 0; reg.installPlugin(PL[1 - outer]); reg.installPlugin(MARKER); reg.installPlugin(PL[outer]); }
         else reg.installPlugin(first);
+        if (anyoutside) reg.installPlugin(OUTER);
         Recorder out;
         for (int k = 0; k < rep; k++) {
             TestResult tr(out);
@@ -622,6 +646,9 @@ static void run_and_judge(vf::Ctx& c) {
         if ((int) own.size() != rr.own_fails) c.violation("harness:own-failure-count", where0 + ": " + std::to_string(own.size()) + " own failures recorded by the output");
         c.count("tests_run");
         if (rr.realloc_failed) c.count("realloc_failures_injected", (uint64_t) rr.realloc_failed);
+        if (rr.outside_allocs) c.count("blocks_allocated_between_tests", (uint64_t) rr.outside_allocs);
+        if (rr.outside_frees) c.count("blocks_released_between_tests", (uint64_t) rr.outside_frees);
+        for (int i = 0; i < nB; i++) if (B[i].owner_run == r && !B[i].outside && B[i].freed_run == r + 1 && B[i].freed_outside) { c.count("tests_whose_leak_is_released_before_the_next_test_starts"); break; }
         if (!(rr.phases & 2)) c.count("tests_body_skipped");
 
         size_t earlier_failures = (size_t) rr.own_fails;         // failures the test already has when a leak plugin's post action runs
@@ -631,10 +658,11 @@ static void run_and_judge(vf::Ctx& c) {
             if (!has[d]) continue;
             const std::string sfx = SFX[d];
             const bool second_of_two = mode == 2 && step == 1;
-            std::set<int> E; size_t earlier_live = 0;
+            std::set<int> E; size_t earlier_live = 0, between_live = 0;      // earlier_live: blocks of this detector from before this test's window that are still live at its end
             for (int i = 0; i < nB; i++) if (B[i].det == d) {
-                if (B[i].owner_run == r) { if (B[i].freed_run == -1 || B[i].freed_run > r) E.insert(i); }
-                else if (B[i].owner_run < r && (B[i].freed_run == -1 || B[i].freed_run > r)) earlier_live++;
+                bool live_at_end = B[i].freed_run == -1 || B[i].freed_run > r;
+                if (B[i].owner_run == r && !B[i].outside) { if (live_at_end) E.insert(i); }
+                else if (live_at_end && (B[i].owner_run < r || (B[i].owner_run == r && B[i].outside == PH_BEFORE))) { earlier_live++; if (B[i].outside) between_live++; }
             }
             unsigned long expected = rr.expect_set[d] ? rr.expect[d] : 0;
             bool want = earlier_failures == 0 && !rr.ignore[d] && E.size() != expected;
@@ -643,7 +671,7 @@ static void run_and_judge(vf::Ctx& c) {
             std::string where = where0 + (mode == 0 ? "" : d ? " [plugin with its own detector" : " [plugin on the global detector") + (mode == 2 ? (second_of_two ? ", outer of two leak plugins" : ", inner of two leak plugins") : "") + (mode == 0 ? "" : "]") +
                                 (second_of_two ? ", leak failures of the inner plugin " + std::to_string(earlier_failures - (size_t) rr.own_fails) : std::string()) +
                                 ", ignore " + std::to_string(rr.ignore[d]) + ", expected " + (rr.expect_set[d] ? std::to_string(rr.expect[d]) : std::string("default 0")) +
-                                ", outstanding own blocks " + std::to_string(E.size()) + ", released blocks of earlier tests " + std::to_string(rr.freed_earlier[d]) + ", earlier tests' blocks still live " + std::to_string(earlier_live);
+                                ", outstanding own blocks " + std::to_string(E.size()) + ", released blocks of earlier tests " + std::to_string(rr.freed_earlier[d]) + ", blocks from before this test still live " + std::to_string(earlier_live) + (between_live ? " (" + std::to_string(between_live) + " of them allocated between tests)" : std::string());
             std::string decl = rr.expect_set[d] ? "declared" : "default";
             // would the observed verdict be right if a realloc'ed block still belonged to the test that first allocated it? (diagnostic suffix only)
             size_t adopted = 0; for (int bi : E) if (B[bi].adopted) adopted++;
@@ -659,9 +687,9 @@ static void run_and_judge(vf::Ctx& c) {
             if (!want && !lk.empty()) {
                 std::string reason = rr.own_fails ? "test-already-failed" : earlier_failures ? "other-leak-plugin-already-failed-the-test" : rr.ignore[d] ? "leaks-ignored" : "count-equals-" + decl;
                 Parsed P = parse_report(lk[0]->msg);
-                bool earlier = false;
-                for (const Entry& e : P.e) { auto it = J.by_num.find(Judge::key(d, e.num)); if (it != J.by_num.end() && B[it->second].owner_run < r) earlier = true; }
-                c.violation("verdict:leak-failure-spurious:" + reason + (earlier ? ":blames-earlier-tests-blocks" : "") + alt + sfx, where + ": " + std::string(lk[0]->msg).substr(0, 400));
+                bool earlier = false, between = false;
+                for (const Entry& e : P.e) { auto it = J.by_num.find(Judge::key(d, e.num)); if (it == J.by_num.end()) continue; if (B[it->second].outside) between = true; else if (B[it->second].owner_run < r) earlier = true; }
+                c.violation("verdict:leak-failure-spurious:" + reason + (earlier ? ":blames-earlier-tests-blocks" : "") + (between ? ":blames-blocks-allocated-between-tests" : "") + alt + sfx, where + ": " + std::string(lk[0]->msg).substr(0, 400));
             }
             if (!lk.empty()) {
                 const FailRec* f = lk[0];
@@ -682,6 +710,11 @@ static void run_and_judge(vf::Ctx& c) {
             if (rr.expect_set[d] && rr.expect[d] > 0) { c.count("tests_declaring_nonzero_expectation"); nontrivial = true; }
             if (rr.plugin_fails) c.count(E.empty() ? "tests_failed_by_other_plugin_clean" : "tests_failed_by_other_plugin_with_outstanding_blocks");
             for (int bi : E) c.count(std::string("leaked_kind_") + KIND_NAME[B[bi].kind]);
+            if (between_live) {
+                c.count("verdicts_with_blocks_allocated_between_tests_live");
+                if (!want && earlier_failures == 0 && !rr.ignore[d]) c.count("verdict_pass_while_blocks_allocated_between_tests_live");
+                if (want && !E.empty()) c.count("leak_reports_while_blocks_allocated_between_tests_live");
+            }
             if (d) {
                 // the situations that tell "the plugin worked on its own detector" from "it worked on the global one"
                 c.count("own_detector_verdicts");
@@ -867,6 +900,22 @@ static void gen_random_program(vf::Ctx& c, int profile, int max_tests, int detmo
     G.threadsafe = r.chance(15);
     GenState gs; for (int s = 0; s < MAX_SLOTS; s++) { gs.occ[s] = -1; gs.fam[s] = 0; gs.det[s] = 0; }
     for (int t = 0; t < nt; t++) gen_test(r, PROFILES[profile], profile, t, gs);
+    // code between the tests (drawn after everything else: the test scripts of a given (seed, index) do not depend on it).
+    // Blocks allocated there live in reserved slots that no test script addresses; releases may hit those or whatever a test
+    // left in its slots (also the block the test that just ended has leaked: it stays that test's leak).
+    if (r.chance(30)) for (int t = 0; t < nt; t++) for (int ph = PH_BEFORE; ph <= PH_AFTER; ph++) {
+        if (!r.chance(45)) continue;
+        int n = r.range(1, 3);
+        for (int i = 0; i < n; i++) {
+            int d = detmode == 2 ? (int) r.below(2) : 0;
+            switch (r.below(8)) {
+            case 0: case 1: case 2: case 3: { int k = pick_kind(r, profile); push(t, ph, mk(O_ALLOC, FIRST_OUTSIDE_SLOT + (int) r.below(4), k, pick_size(r), 0, d)); break; }
+            case 4: case 5: push(t, ph, mk(O_FREE, FIRST_OUTSIDE_SLOT + (int) r.below(4))); break;
+            case 6: push(t, ph, mk(O_FREE, (int) r.below((uint64_t) G.nslots))); break;
+            default: { int k = pick_kind(r, profile); push(t, ph, mk(O_TEMP, 0, k, pick_size(r), 0, d)); break; }
+            }
+        }
+    }
 }
 
 static void sec_random(vf::Ctx& c) {
@@ -961,6 +1010,7 @@ static void init() {
     SWEEP = new SweepShell;
     FAILPLUGIN = new FailPlugin;
     MARKER = new MarkerPlugin;
+    OUTER = new OuterPlugin;
     REAL_REALLOC = PlatformSpecificRealloc;
     for (int i = 0; i < MAX_TESTS; i++) {
         char* f = (char*) malloc(24); snprintf(f, 24, "c07_t%02d.cpp", i); FILES[i] = f;
